@@ -1869,6 +1869,20 @@ func ruleRNG2(c *Ctx) []Ob {
 			}
 		}
 		if body == nil {
+			// the emission loop lives in a helper (or its stop test in a function literal): the
+			// truth table of the stop condition (RNG4), which follows both, decides the same clause
+			table := VIOLATED
+			for _, ob := range ruleRNG4(c) {
+				if ob.Status == OK && strings.HasPrefix(ob.Key, "RNG4/"+c.fname(fn)+"/") {
+					table = OK
+				}
+			}
+			if table == OK {
+				for _, dname := range []string{"reverse", "forward"} {
+					n++
+					o.add(OK, c.fname(fn)+"/"+dname+" scan stops on the far bound", relPath(c, fn.Pos()), "the emission loop is not in the scan function itself; the truth table of the stop condition (RNG4), evaluated through the helpers, shows the scan stops on the far bound only")
+				}
+			}
 			continue
 		}
 		for _, dir := range []bool{true, false} {
@@ -3578,6 +3592,37 @@ func ruleRNG3(c *Ctx) []Ob {
 			o.add(OK, key, relPath(c, isEmpty.Pos()), "checked on %d ranges over %d ordered symbolic values and nil, %d probe values", len(domain), len(bounds)-1, len(probes))
 		}
 	}
+	// a range that ENDS at the value nil (included) and starts above it holds nothing (nil is the lowest value);
+	// Intersect produces such ranges (Eq(5) with Eq(nil)), and the scan reads a nil end of any range other than
+	// the nil-only one as "unbounded": unless IsEmpty turns them away, the scan yields everything above the start
+	{
+		key := "Range.IsEmpty/a range that ends at the value nil above its start is empty"
+		bad, undec := "", ""
+		for _, s0 := range bounds {
+			if s0 == 0 {
+				continue
+			}
+			for _, si := range []bool{false, true} {
+				r := absRange{s0, 0, si, true}
+				emp, why := evalEmpty(r)
+				if why != "" {
+					undec = why
+					continue
+				}
+				if !emp {
+					bad = fmt.Sprintf("%s is not reported empty", r)
+				}
+			}
+		}
+		switch {
+		case bad != "":
+			o.add(VIOLATED, key, relPath(c, isEmpty.Pos()), "%s: no value lies between a non-nil start and the value nil, but the range scan takes a nil end for \"no upper bound\" and yields every entry from the start on - the scan of Eq(5) intersected with Eq(nil) returns every id at or above 5", bad)
+		case undec != "":
+			o.add(UNDECIDED, key, relPath(c, isEmpty.Pos()), "%s", undec)
+		default:
+			o.add(OK, key, relPath(c, isEmpty.Pos()), "reported empty for every start above nil, included or not")
+		}
+	}
 	// Intersect
 	{
 		key := "Range.Intersect/keeps every value that lies in both ranges"
@@ -4194,11 +4239,16 @@ func ruleRNG4(c *Ctx) []Ob {
 		}
 		return false
 	}
+	// markers carried by abstract values, so that helpers and function literals the scan is split
+	// into are followed: the consumer callback and the encoded bounds of the range
+	const consumerMark, boundMark = 78, 77
+	isMark := func(a aval, m int64) bool { return a.K == aConcrete && a.Idx == m }
 	bad, undec := "", ""
 	for _, tcase := range cases {
 		tcase := tcase
 		lostCmp := false
 		nextSinceSeek, nearCalls := 0, 0
+		var emits []int // the consumer was called after so many Next since the seek (on some explored path)
 		te := c.newTagEval()
 		te.heap = map[int64]map[int]aval{}
 		te.maxVisits = 2
@@ -4222,7 +4272,8 @@ func ruleRNG4(c *Ctx) []Ob {
 				// some non-nil cursor (a known value, so that helpers taking it are evaluated)
 				return []aval{{K: aConcrete, Tag: call.Common().Signature().Results().At(0).Type()}, nilErr}, true
 			}
-			if isFuncParamCall(call) {
+			if isFuncParamCall(call) || (!cc.IsInvoke() && isMark(val(cc.Value), consumerMark)) {
+				emits = append(emits, nextSinceSeek)
 				return []aval{{K: aConst, C: constant.MakeString(fmt.Sprintf("EMIT:%d", nextSinceSeek))}}, true
 			}
 			full := calleeFullName(call)
@@ -4243,10 +4294,11 @@ func ruleRNG4(c *Ctx) []Ob {
 					}
 					return false
 				}
+				isBoundV := func(v ssa.Value) bool { return isBound(v) || isMark(val(v), boundMark) }
 				switch {
-				case isBound(cc.Args[1]) && !isBound(cc.Args[0]):
+				case isBoundV(cc.Args[1]) && !isBoundV(cc.Args[0]):
 					return []aval{{K: aConst, C: constant.MakeInt64(tcase.cmp)}}, true
-				case isBound(cc.Args[0]) && !isBound(cc.Args[1]):
+				case isBoundV(cc.Args[0]) && !isBoundV(cc.Args[1]):
 					return []aval{{K: aConst, C: constant.MakeInt64(-tcase.cmp)}}, true
 				}
 				lostCmp = true
@@ -4261,7 +4313,7 @@ func ruleRNG4(c *Ctx) []Ob {
 						}
 					}
 				}
-				if nearBound {
+				if nearBound || isMark(val(cc.Args[1]), boundMark) {
 					// the first entry after the seek equals the near bound, the following ones do not
 					nearCalls++
 					return []aval{boolConst(tcase.nearHas && nearCalls == 1)}, true
@@ -4304,10 +4356,19 @@ func ruleRNG4(c *Ctx) []Ob {
 						}
 					}
 					if allBytes && someBytes {
+						// the encoded bounds: what a helper given the range hands back
+						fromRange := false
+						for _, a := range cc.Args {
+							if av := val(a); av.K == aPtr && av.Idx == rp.Idx {
+								fromRange = true
+							}
+						}
 						out := make([]aval, g.Signature.Results().Len())
 						for i := range out {
 							if isErrorType(g.Signature.Results().At(i).Type()) {
 								out[i] = nilErr
+							} else if fromRange {
+								out[i] = aval{K: aConcrete, Tag: g.Signature.Results().At(i).Type(), Idx: boundMark}
 							}
 						}
 						return out, true
@@ -4323,6 +4384,10 @@ func ruleRNG4(c *Ctx) []Ob {
 				args[i] = boolConst(tcase.reverse)
 			case rng:
 				args[i] = rp
+			default:
+				if _, isSig := p.Type().Underlying().(*types.Signature); isSig {
+					args[i] = aval{K: aConcrete, Tag: p.Type(), Idx: consumerMark}
+				}
 			}
 		}
 		outs := te.Eval(scan, args, 0)
@@ -4341,6 +4406,12 @@ func ruleRNG4(c *Ctx) []Ob {
 						firstAt = k
 					}
 				}
+			}
+		}
+		for _, k := range emits {
+			emitted = true
+			if firstAt < 0 || k < firstAt {
+				firstAt = k
 			}
 		}
 		if tcase.nearHas && emitted {
@@ -5270,19 +5341,31 @@ func ruleNORM4(c *Ctx) []Ob {
 		if !takesQ {
 			continue
 		}
-		for _, b := range fn.Blocks {
-			for _, in := range b.Instrs {
-				if al, ok := in.(*ssa.Alloc); ok {
-					if n, ok := al.Type().Underlying().(*types.Pointer).Elem().(*types.Named); ok {
-						for _, it := range inputs {
-							if it == n {
-								planners[fn] = true
+		allocsInput := func(f *ssa.Function) bool {
+			for _, b := range f.Blocks {
+				for _, in := range b.Instrs {
+					if al, ok := in.(*ssa.Alloc); ok {
+						if n, ok := al.Type().Underlying().(*types.Pointer).Elem().(*types.Named); ok {
+							for _, it := range inputs {
+								if it == n {
+									return true
+								}
 							}
 						}
 					}
 				}
 			}
+			return false
 		}
+		if allocsInput(fn) {
+			planners[fn] = true
+		}
+		// or builds it through a constructor
+		allCalls(fn, func(ci ssa.CallInstruction) {
+			if g := staticCallee(ci); g != nil && c.IsLib(c.declared(g)) && c.pkgRel(c.declared(g)) == "" && allocsInput(c.declared(g)) {
+				planners[fn] = true
+			}
+		})
 	}
 	var planner *ssa.Function
 	for f := range planners {
@@ -5361,6 +5444,11 @@ func ruleNORM4(c *Ctx) []Ob {
 							call, _ = og.(*ssa.Call)
 						}
 						if call == nil {
+							// the parameter itself, spilled into a captured variable that the normalised query
+							// overwrites before the closure is made (q, err := normalizeCriteria(q); view(func...))
+							if pp, isP := og.(*ssa.Parameter); isP && pp.Parent() == fn && c.overwrittenByNormalised(fn, sf, ci, pp, isNorm) {
+								continue
+							}
 							okAll = false
 							continue
 						}
@@ -5503,9 +5591,9 @@ func ruleID5(c *Ctx) []Ob {
 			if (isID(bo.X) && isCanon(bo.Y)) || (isID(bo.Y) && isCanon(bo.X)) {
 				return branch == want
 			}
-			if k, ok := constInt(bo.Y); ok && k == N && isLenID(bo.X) {
-				return branch == want
-			}
+			// (a test of the length alone is not enough: the parser reads hex digits in either case, so 36
+			// characters in upper case are another spelling of an id the lower-case spelling already denotes)
+			_ = isLenID
 			return false
 		})
 		key := c.fname(fn) + "/accepts canonical ids only"
@@ -7091,4 +7179,59 @@ func ruleNIL6(c *Ctx) []Ob {
 		o.add(OK, "caches", "-", "no result of a fallible call is put into a sync.Map, a package-level map or variable")
 	}
 	return o.list
+}
+
+// overwrittenByNormalised: parameter p of fn lives in a local (it is captured by a closure) and, before the
+// point of use - the creation of closure sf, or the call ci when sf is fn itself - that local is assigned the
+// result of a query normaliser on every path (the assigning store dominates the point of use).
+func (c *Ctx) overwrittenByNormalised(fn, sf *ssa.Function, ci ssa.CallInstruction, p *ssa.Parameter, isNorm func(*ssa.Function) bool) bool {
+	var use ssa.Instruction
+	if sf == fn {
+		use = ci
+	} else {
+		for _, b := range fn.Blocks {
+			for _, in := range b.Instrs {
+				if mc, ok := in.(*ssa.MakeClosure); ok && mc.Fn == ssa.Value(sf) {
+					use = mc
+				}
+			}
+		}
+	}
+	if use == nil {
+		return false
+	}
+	for _, r := range realReferrers(p) {
+		st, ok := r.(*ssa.Store)
+		if !ok || st.Val != ssa.Value(p) {
+			continue
+		}
+		al, ok := st.Addr.(*ssa.Alloc)
+		if !ok {
+			continue
+		}
+		for _, r2 := range realReferrers(al) {
+			st2, ok := r2.(*ssa.Store)
+			if !ok || st2.Addr != ssa.Value(al) || st2 == st {
+				continue
+			}
+			normalised := false
+			for _, og := range origins(st2.Val) {
+				var call *ssa.Call
+				if ex, isEx := og.(*ssa.Extract); isEx {
+					call, _ = ex.Tuple.(*ssa.Call)
+				} else {
+					call, _ = og.(*ssa.Call)
+				}
+				if call != nil {
+					if h := staticCallee(call); h != nil && isNorm(c.declared(h)) {
+						normalised = true
+					}
+				}
+			}
+			if normalised && instrDominates(st2, use) {
+				return true
+			}
+		}
+	}
+	return false
 }
